@@ -19,7 +19,7 @@ RULE = ("every dataset of the program uses a ScriptedCache(Cache): a contract-ab
         "behaves per a fault script over {behave, miss, lie-exists, fail-get, forget}: miss = report absent / raise "
         "CacheGetFailure, lie-exists = exists() answers True, fail-get = get() raises although stored (also the read-back "
         "right after a set), forget = drop the entry (a set stores nothing). part 'exhaustive-scripts': ALL 5^N scripts "
-        "for the first N backend calls (N=4 quick, N=6 thorough; later calls behave) x a fixed family of 3 dataset "
+        "for the first N backend calls (N=5 quick, N=6 thorough; later calls behave) x a fixed family of 3 dataset "
         "graphs x a 4-step history with a repeat; part 'random-scripts': random programs x random histories x random "
         "scripts of length <=40. Every evaluation must return the reference value without raising. Non-trivial = at "
         "least one non-'behave' entry was consumed by a backend call; distinct = distinct (graph, history, script) hash.")
@@ -116,7 +116,7 @@ def check(case, ctx):
 
 
 def enum_scripts(ctx):
-    n = 4 if ctx.tier == "quick" else 6
+    n = 5 if ctx.tier == "quick" else 6
     fam = _family()
     for d in [x for s in fam for x in s["defs"]]:
         d.pop("effects", None)
@@ -142,5 +142,5 @@ def cases(draw, prof):
 PROFILE = specgen.profile(depth=2, domain_rate=0.01, max_defs=5, effects=False)
 PARTS = [
     Part("exhaustive-scripts", check, enumerate=enum_scripts, budget={"quick": None, "thorough": None}),
-    Part("random-scripts", check, strategy=lambda ctx: cases(PROFILE), budget={"quick": 100, "thorough": 1500}),
+    Part("random-scripts", check, strategy=lambda ctx: cases(PROFILE), budget={"quick": 300, "thorough": 1500}),
 ]
